@@ -178,7 +178,9 @@ def run(tier):
             if b2 in pth:
                 recv = _strip(cfg.expr_operand(ins, t["args"][0]))
                 payload = _strip(cfg.expr_operand(ins, t["args"][-1]))
-                if payload in (("place", ("param", 2), [("field", "0")]), ("param", 2)):
+                node0 = ("place", ("param", 2), [("field", "0")])
+                # the node itself, the whole (node, id) parameter, or that pair re-formed from its destructured halves
+                if payload in (node0, ("param", 2)) or (payload[0] == "agg" and payload[1] == "tuple" and payload[2][:1] == (node0,)):
                     n += 1
                     kinds.append(ck.split("::")[-2] + "::" + ck.split("::")[-1] + "(" + cfg.expr_str(recv)[:40] + ")")
         for kb in key_stores:
